@@ -137,12 +137,22 @@ class Run(Partial):
             for t in tasks:
                 self.merge(func(t))
             return
+        import concurrent.futures as cf
+        from concurrent.futures.process import BrokenProcessPool
         ctx = mp.get_context("fork")
-        with ctx.Pool(min(nproc, len(tasks))) as pool:
-            for part in pool.imap_unordered(_guarded(func), tasks, chunksize):
-                if isinstance(part, _WorkerError):
-                    raise HarnessError(part.text)
-                self.merge(part)
+        g = _guarded(func)
+        with cf.ProcessPoolExecutor(max_workers=min(nproc, len(tasks)), mp_context=ctx, initializer=_init_worker) as ex:
+            futs = [ex.submit(g, t) for t in tasks]
+            try:
+                for f in cf.as_completed(futs):
+                    part = f.result()
+                    if isinstance(part, _WorkerError):
+                        for o in futs:
+                            o.cancel()
+                        raise HarnessError(part.text)
+                    self.merge(part)
+            except BrokenProcessPool:
+                raise HarnessError("a worker process died (killed / out of memory) - the exploration is incomplete")
 
     def finish(self):
         known = [k for k in _load_known() if k.get("property") == self.pid and k.get("status") == "known"]
@@ -204,6 +214,19 @@ class Run(Partial):
         with open(tmp, "w") as f:
             json.dump(ev, f, indent=1, sort_keys=True)
         os.replace(tmp, path)
+
+
+WORKER_DATA_LIMIT = 10 * 1024 ** 3
+
+
+def _init_worker():
+    """Runaway allocations inside the library under test must surface as MemoryError in the worker (and from there as a
+    violation or harness error) instead of getting the worker killed by the OOM killer."""
+    try:
+        import resource
+        resource.setrlimit(resource.RLIMIT_DATA, (WORKER_DATA_LIMIT, WORKER_DATA_LIMIT))
+    except Exception:
+        pass
 
 
 class _WorkerError:
